@@ -38,17 +38,17 @@ type c16Case struct {
 
 type c16Flags struct {
 	MinWS, MinSyn, MinID, KeepNames, Bundle, Splitting, TreeShake bool
-	Target                                                    int
-	Format                                                    int
-	Sourcemap                                                 int
-	JSX                                                       int
-	Charset                                                   int
-	Platform                                                  int
-	LineLimit                                                 int
-	MangleProps                                               bool
-	Legal                                                     int
-	Tsconfig                                                  string
-	Drop                                                      bool
+	Target                                                        int
+	Format                                                        int
+	Sourcemap                                                     int
+	JSX                                                           int
+	Charset                                                       int
+	Platform                                                      int
+	LineLimit                                                     int
+	MangleProps                                                   bool
+	Legal                                                         int
+	Tsconfig                                                      string
+	Drop                                                          bool
 }
 
 func c16RandomFlags(rng *Rng) c16Flags {
@@ -319,7 +319,11 @@ func c16Run(c c16Case, scratch string) (marker string) {
 	}()
 	f := c.Flags
 	if !f.Bundle {
-		res := api.Transform(c.Input, func() api.TransformOptions { o := f.transform(loaderByLang(c.Loader)); o.LogLevel = api.LogLevelSilent; return o }())
+		res := api.Transform(c.Input, func() api.TransformOptions {
+			o := f.transform(loaderByLang(c.Loader))
+			o.LogLevel = api.LogLevelSilent
+			return o
+		}())
 		if m := hasInternalError(res.Errors); m != "" {
 			return m
 		}
